@@ -407,28 +407,28 @@ example : SwFresh d0 {} ∧ SwInputOk bufsA.flatten ∧
       have hb2 : (2 == sid) = false := beq_eq_false_iff_ne.mpr (fun e => h2 e.symm)
       simp [projStream, bufsA, bufsB, hb1, hb2]
 
-/-! ## F17: an incremental stream write puts tables above the base level -/
+/-! ## F20: an incremental stream write puts tables above the base level -/
 
-def f17k1 : Ent := { key := [0x6b], ver := 1, emeta := 0, umeta := 0, exp := 0, val := [0x61] }
-def f17k3 : Ent := { key := [0x6b], ver := 3, emeta := 0, umeta := 0, exp := 0, val := [0x62] }
-def f17k4 : Ent := { key := [0x6b], ver := 4, emeta := 65, umeta := 0, exp := 0, val := [] }
-def f17z5 : Ent := { key := [0x7a], ver := 5, emeta := 64, umeta := 0, exp := 0, val := [1] }
+def f20k1 : Ent := { key := [0x6b], ver := 1, emeta := 0, umeta := 0, exp := 0, val := [0x61] }
+def f20k3 : Ent := { key := [0x6b], ver := 3, emeta := 0, umeta := 0, exp := 0, val := [0x62] }
+def f20k4 : Ent := { key := [0x6b], ver := 4, emeta := 65, umeta := 0, exp := 0, val := [] }
+def f20z5 : Ent := { key := [0x7a], ver := 5, emeta := 64, umeta := 0, exp := 0, val := [1] }
 /-- `k = a @1` was streamed to the last level of an empty 3-level DB -/
-def f17Db1 : Db := { opts := { maxLevels := 3 }, lsm := { mem := [], imm := [], levels := [[], [], [{ ents := [f17k1] }]] }, nextTs := 2 }
+def f20Db1 : Db := { opts := { maxLevels := 3 }, lsm := { mem := [], imm := [], levels := [[], [], [{ ents := [f20k1] }]] }, nextTs := 2 }
 /-- `k = b @3` streamed incrementally (to level 1), then `delete k @4`, a commit `@5`, a flush -/
-def f17Before : Lsm := { mem := [], imm := [], levels := [[{ ents := [f17k4, f17z5] }], [{ ents := [f17k3] }], [{ ents := [f17k1] }]] }
+def f20Before : Lsm := { mem := [], imm := [], levels := [[{ ents := [f20k4, f20z5] }], [{ ents := [f20k3] }], [{ ents := [f20k1] }]] }
 /-- the L0 → L2 compaction (base level 2: level 1 is jumped over) with discard timestamp 4:
     `subcompact` of the merge of the L0 table and the overlapping L2 table -/
-def f17After : Lsm := { mem := [], imm := [], levels := [[], [{ ents := [f17k3] }],
-  [{ ents := subcompact { discardTs := 4, numKeep := 1, hasOverlap := false, now := 0, dropPrefixes := [] } [f17k4, f17k1, f17z5] }]] }
+def f20After : Lsm := { mem := [], imm := [], levels := [[], [{ ents := [f20k3] }],
+  [{ ents := subcompact { discardTs := 4, numKeep := 1, hasOverlap := false, now := 0, dropPrefixes := [] } [f20k4, f20k1, f20z5] }]] }
 
 /-- witness: `PrepareIncremental` on a DB whose only data is on the last level targets level 1;
     after the later L0 → L2 compaction the deleted key reads its old streamed value again. -/
-theorem C26_F17_skipped_level_witness :
-    (f17Db1.swPrepareIncremental.toOption.map (swTarget f17Db1)) = some 1 ∧
-    f17After.levels = [[], [{ ents := [f17k3] }], [{ ents := [f17z5] }]] ∧
-    visible 0 (f17Before.get [0x6b] 10) = none ∧
-    visible 0 (f17After.get [0x6b] 10) = some f17k3 := by
+theorem C26_F20_skipped_level_witness :
+    (f20Db1.swPrepareIncremental.toOption.map (swTarget f20Db1)) = some 1 ∧
+    f20After.levels = [[], [{ ents := [f20k3] }], [{ ents := [f20z5] }]] ∧
+    visible 0 (f20Before.get [0x6b] 10) = none ∧
+    visible 0 (f20After.get [0x6b] 10) = some f20k3 := by
   decide
 
 end Badger
